@@ -284,6 +284,15 @@ func init() {
 			if err != nil {
 				return err
 			}
+			var bl struct {
+				Family  string `json:"family"`
+				Buffer  int    `json:"buffer"`
+				Variant string `json:"variant"`
+				Route   string `json:"route"`
+			}
+			if json.Unmarshal(b, &bl) == nil && bl.Family == "backlog" {
+				return c05Backlog(e, bl.Buffer, bl.Variant, bl.Route)
+			}
 			var wrap struct {
 				Case *c05Case `json:"case"`
 			}
@@ -370,6 +379,28 @@ func init() {
 // c05Stress: ungated run — many concurrent ProcessCommand calls, responses permuted, duplicated,
 // dropped, late, with unknown ids; cancellations at random times. Judged by the statement.
 func c05Stress(e *Env, rounds int) error {
+	var bwg sync.WaitGroup
+	var bmu sync.Mutex
+	var berr error
+	for _, buf := range []int{1, 3} {
+		for _, variant := range []string{"unknown", "late", "dup"} {
+			for _, route := range []string{"pipe", "inproc"} {
+				bwg.Add(1)
+				go func(buf int, variant, route string) {
+					defer bwg.Done()
+					if err := c05Backlog(e, buf, variant, route); err != nil {
+						bmu.Lock()
+						berr = err
+						bmu.Unlock()
+					}
+				}(buf, variant, route)
+			}
+		}
+	}
+	bwg.Wait()
+	if berr != nil {
+		return berr
+	}
 	for round := 0; round < rounds; round++ {
 		if err := c05StressRound(e, round); err != nil {
 			return err
